@@ -1099,6 +1099,8 @@ func main() {
 	if run.Only < 0 {
 		if cx.strace == "" || run.Counter("strace_files_checked") == 0 {
 			run.Inconclusive("no syscall trace could be judged (strace missing or traces incomplete): the write-ordering oracle saw nothing")
+		} else if j, n := run.Counter("strace_files_checked"), run.Counter("strace_traces_not_judged"); n > j {
+			run.Inconclusive(fmt.Sprintf("only %d of %d syscall traces could be judged", j, j+n))
 		}
 		var kills, stops, asyncs int64
 		for _, p := range allPoints {
